@@ -2,7 +2,7 @@ SPECIFICATION GSpec
 CONSTANTS Names = {"u1", "o1", "o2", "o3", "o4"}
   Backbone = "Backbone"
   Root = "Root"
-  Depth = 5
+  Depth = 4
   Creators = {"d1", "d2", "bb"}
   Policies = {"allow", "deny", "own"}
   SetTo = {"0", "own", "d1", "Root"}
